@@ -85,6 +85,9 @@ class ConcCtx(sym.Ctx):
     def cover(self, name):
         pass
 
+    def summarize(self, fn):
+        return fn()
+
 
 def main():
     rp = json.load(open(sys.argv[1]))
